@@ -152,6 +152,8 @@ def tracker_ops(draw, visual, batch, nobj, scenes, occluder=False):
             ops.append({"op": "predict", "scene": 0, "default_scene": False, "dets": frame(3 * tt)})
         # (the default-scene twin of skip is a separate wrapper: it has to collect expired tracks too)
         ops.append({"op": "skip", "scene": 0, "n": n, "default_scene": draw(st.booleans())})
+        # (expired tracks that left the live store but were not handed out yet are not "stored tracks")
+        ops.append({"op": "stats"})
         tail = draw(st.sampled_from(["wasted", "predict", "idle", "stats", "clear"]))
         if tail == "predict":
             ops.append({"op": "predict", "scene": 0, "default_scene": False, "dets": frame(3 * k + 1)})
@@ -162,6 +164,7 @@ def tracker_ops(draw, visual, batch, nobj, scenes, occluder=False):
         elif tail == "clear":
             ops.append({"op": "clear_wasted"})
         ops.append({"op": "wasted"})
+        ops.append({"op": "stats"})
         ops.append({"op": "epoch", "scene": 0, "default_scene": False})
         return ops
     if len(scenes) > 1 and draw(st.integers(0, 3)) == 0:
@@ -265,6 +268,8 @@ def tracker_ops(draw, visual, batch, nobj, scenes, occluder=False):
         elif kind == "skip":
             # expiry boundaries: gaps around the documented default idle limits (2 and 5)
             ops.append({"op": "skip", "scene": scene, "n": draw(st.integers(1, 7)), "default_scene": (scene == 0 and draw(st.booleans()))})
+            if draw(st.booleans()):
+                ops.append({"op": "stats"})
         elif kind == "epoch":
             ops.append({"op": "epoch", "scene": scene, "default_scene": (scene == 0 and draw(st.booleans()))})
         elif kind == "idle":
@@ -272,6 +277,9 @@ def tracker_ops(draw, visual, batch, nobj, scenes, occluder=False):
         else:
             ops.append({"op": kind})
     return ops
+
+
+CONSTRAINT_TABLES = st.sampled_from([[[1, 1.0], [3, 2.0]], [[1, 0.05], [5, 0.05]], [[1, 0.02], [2, 0.3]], [[2, 0.1]], [[1, 0.03], [1, 5.0], [4, 0.06]]])
 
 
 @st.composite
@@ -292,7 +300,8 @@ def sec_sort(draw):
     if draw(st.booleans()):
         a["min_confidence"] = draw(fl(0.01, 0.6))
     if draw(st.booleans()):
-        a["constraints"] = [[1, 1.0], [3, 2.0]]
+        # (loose table, and tables that bind for objects moving a few pixels per frame)
+        a["constraints"] = draw(CONSTRAINT_TABLES)
     if draw(st.booleans()):
         a["kalman_position_weight"] = draw(fl(0.02, 0.1))
     if draw(st.booleans()):
@@ -325,7 +334,7 @@ def sec_visual(draw):
     maybe("positional_min_confidence", fl(0.05, 0.6))
     maybe("kalman_position_weight", fl(0.02, 0.1))
     maybe("kalman_velocity_weight", fl(0.003, 0.02))
-    maybe("constraints", st.just([[1, 1.0], [3, 2.0]]))
+    maybe("constraints", CONSTRAINT_TABLES)
     scenes = draw(st.sampled_from([[0], [0, 3]]))
     nobj = draw(st.integers(1, 3))
     return {"kind": "batch_visual" if batch else "visual", "shards": draw(st.integers(1, 3)), "voting_shards": draw(st.integers(1, 2)), "opts": o, "ops": draw(tracker_ops(True, batch, nobj, scenes, occluder))}
@@ -807,6 +816,21 @@ def one(script):
             stats["labels"][s["kind"]] = stats["labels"].get(s["kind"], 0) + 1
             if s["kind"] == "nms" and s["score_threshold"] is not None and any(d["score"] is None and d["box"]["height"] <= s["score_threshold"] for d in s["dets"]):
                 stats["labels"]["nms_unscored_box_lower_than_score_threshold"] = stats["labels"].get("nms_unscored_box_lower_than_score_threshold", 0) + 1
+        for s in script["sections"]:
+            if s["kind"] in TRACKERS:
+                pending = False
+                for o in s["ops"]:
+                    if o["op"] == "skip":
+                        pending = True
+                    elif o["op"] in ("wasted", "clear_wasted"):
+                        pending = False
+                    elif o["op"] == "stats" and pending:
+                        lab = "stats_after_skip_before_collect_" + s["kind"]
+                        stats["labels"][lab] = stats["labels"].get(lab, 0) + 1
+                        break
+                c = (s.get("args") or s.get("opts") or {}).get("constraints")
+                if c and c[0][1] < 0.5:
+                    stats["labels"]["tight_constraints"] = stats["labels"].get("tight_constraints", 0) + 1
         if nontrivial(script):
             stats["nontrivial"].add(hashlib.sha1(json.dumps(script, sort_keys=True).encode()).hexdigest())
             if len(stats["samples"]) < 2:
